@@ -78,6 +78,7 @@ type Explorer struct {
 	stack  []decision
 	pos    int
 	pc     []string // path condition conjuncts
+	pcSet  map[string]bool
 	zstack []string // what the solver currently has asserted (one push level each)
 
 	nfresh   int
@@ -127,6 +128,7 @@ type pathAbort struct{ why string }
 
 func (e *Explorer) resetPath() {
 	e.pos, e.pc, e.nfresh = 0, nil, 0
+	e.pcSet = map[string]bool{}
 	e.vars = nil
 	e.nseq = map[string]int{}
 	e.trace = nil
@@ -198,6 +200,7 @@ func (e *Explorer) assume(c string) {
 		return
 	}
 	e.pc = append(e.pc, c)
+	e.pcSet[c] = true
 }
 
 // sat decides pc ∧ extra. Leaves the solver with pc asserted (extra popped).
@@ -286,10 +289,22 @@ func (e *Explorer) branch(c string) bool {
 		e.assume(mkNot(c))
 		return false
 	}
-	rt := e.sat(c)
-	rf := "sat"
-	if rt != "unsat" {
-		rf = e.sat(mkNot(c))
+	// a condition that is literally part of the path condition (or whose negation is) needs no
+	// solver call: the reference and the code under test often evaluate the same comparison
+	var rt, rf string
+	switch {
+	case e.pcSet[c]:
+		rt, rf = "sat", "unsat"
+		e.res.CacheHits++
+	case e.pcSet[mkNot(c)]:
+		rt, rf = "unsat", "sat"
+		e.res.CacheHits++
+	default:
+		rt = e.sat(c)
+		rf = "sat"
+		if rt != "unsat" {
+			rf = e.sat(mkNot(c))
+		}
 	}
 	d := decision{n: 2, cond: c}
 	switch {
